@@ -1,6 +1,7 @@
 package eng
 
 import (
+	"sort"
 	"fmt"
 	"go/types"
 	"strings"
@@ -307,6 +308,10 @@ func (e *Engine) lockIntrinsic(st *State, fr *Frame, x *ssa.Call, name string, a
 	case "W", "R":
 		e.oblige(st, "lockset@acquire", "", ord, BoolT(st.locks[mk] == ""), "mutex is not already held by this call (self-deadlock)", pos)
 		st.locks[mk] = op
+		if st.heldLocks == nil {
+			st.heldLocks = map[string]heldLock{}
+		}
+		st.heldLocks[mk] = heldLock{ref: p.L.Ref, g: gl}
 		e.havocGuarded(st, p.L.Ref, gl)
 		if root := st.frames[0]; root.spec != nil {
 			ic := &specCtx{e: e, st: st, env: e.entryEnv(root), heaps: st.heaps, oldHeaps: st.heaps, pkg: root.fn.Pkg}
@@ -398,4 +403,56 @@ func fieldPathIdx(t types.Type, path []int) ([]int, types.Type, bool) {
 		t = st.Field(k).Type()
 	}
 	return path, t, true
+}
+
+// loopReacquires: the loop body acquires a mutex (a loop that releases the lock it was entered with
+// around a callback and takes it again before the next element).
+func loopReacquires(li *loopInfo) bool {
+	for b := range li.blocks {
+		for _, in := range b.Instrs {
+			if c, ok := in.(*ssa.Call); ok {
+				if f := c.Call.StaticCallee(); f != nil {
+					switch f.String() {
+					case "(*sync.RWMutex).Lock", "(*sync.RWMutex).RLock", "(*sync.Mutex).Lock":
+						return true
+					}
+				}
+			}
+		}
+	}
+	return false
+}
+
+// rehavocHeldAtLoopHead: at the head of an arbitrary iteration of a loop whose body releases and
+// re-acquires a mutex, the state guarded by every mutex held there is whatever other goroutines left
+// (it was forgotten by the acquire at the end of the previous iteration): forget it, and let the
+// critical section that is open at the head start here.
+func (e *Engine) rehavocHeldAtLoopHead(st *State) {
+	var keys []string
+	for mk, mode := range st.locks {
+		if mode != "" {
+			keys = append(keys, mk)
+		}
+	}
+	sort.Strings(keys)
+	for _, mk := range keys {
+		h, ok := st.heldLocks[mk]
+		if !ok {
+			continue
+		}
+		st.published = true
+		e.havocGuarded(st, h.ref, h.g)
+		if root := st.frames[0]; root.spec != nil {
+			ic := &specCtx{e: e, st: st, env: e.entryEnv(root), heaps: st.heaps, oldHeaps: st.heaps, pkg: root.fn.Pkg}
+			for _, li := range root.spec.LockInvs {
+				st.assume(ic.evalBool(li.E))
+			}
+		}
+		for i := len(st.cs) - 1; i >= 0; i-- {
+			if st.cs[i].open && st.cs[i].mutex == mk {
+				st.cs[i].pre = copyHeaps(st.heaps)
+				break
+			}
+		}
+	}
 }
